@@ -295,12 +295,47 @@ def own_nodes(func):
             stack.append(c)
 
 
+def stores_of(clsname, f, sc):
+    """in-place stores anywhere in the method, nested helper functions included (they run on the method's operands)."""
+    stores = []
+    for n in ast.walk(f):
+        targets = []
+        if isinstance(n, ast.Assign):
+            targets = n.targets
+        elif isinstance(n, ast.AugAssign):
+            targets = [n.target]
+        for t in targets:
+            if isinstance(t, (ast.Subscript, ast.Attribute)):
+                stores.append((clsname, f.name, ast.unparse(n)[:120], store_target_class(t, sc)))
+        if isinstance(n, ast.AugAssign) and isinstance(n.target, ast.Name):
+            # `x op= y` on a name: for an array this writes into x's own buffer; harmless only when x is the method's own
+            c = classify(n.target, sc)
+            params = {a.arg for a in f.args.posonlyargs + f.args.args + f.args.kwonlyargs} | {a.arg for a in (f.args.vararg, f.args.kwarg) if a}
+            if n.target.id in params:
+                c = "param"      # flow-insensitive: on some path the name still holds the caller's object
+            stores.append((clsname, f.name, ast.unparse(n)[:120],
+                           "local" if c in ("fresh", "local-frame", "list", "delegate", "scalar") else
+                           "operand" if c in ("opcol", "alias", "operand-frame", "param", "receiver", "shallow") else "unknown"))
+        if isinstance(n, ast.Call) and isinstance(n.func, ast.Attribute) and n.func.attr in ("fill", "put", "itemset", "partition", "resize", "setfield", "byteswap") and not isinstance(n.func.value, ast.Constant):
+            stores.append((clsname, f.name, ast.unparse(n)[:120], store_target_class(n.func, sc)))
+        if isinstance(n, ast.Call) and isinstance(n.func, ast.Attribute) and isinstance(n.func.value, ast.Name) and n.func.value.id == "np" and n.func.attr in ("place", "put", "putmask", "copyto", "put_along_axis"):
+            tgt = n.args[0] if n.args else None
+            c = classify(tgt, sc) if tgt is not None else "unknown"
+            stores.append((clsname, f.name, ast.unparse(n)[:120], "local" if c in ("fresh", "local-frame", "list") else "operand" if c in ("opcol", "alias", "operand-frame", "param") else "unknown"))
+    return stores
+
+
 def site_table():
     results, stores = [], []
     for path, clsname in (("dataiter/data_frame.py", "DataFrame"), ("dataiter/vector.py", "Vector")):
         tree = ast.parse(src(path))
         for f in functions_of(tree, clsname):
             decos = [ast.unparse(d) for d in f.decorator_list]
+            if f.name.startswith("_") and not f.name.startswith("__") and "classmethod" not in decos and "staticmethod" not in decos:
+                # a private helper runs on the operands of the public method that calls it: its stores count too
+                sc = Scope(clsname, f)
+                stores.extend(stores_of(clsname, f, sc))
+                continue
             if f.name.startswith("_") or "property" in decos or any(d.endswith(".setter") for d in decos) or "classmethod" in decos or "staticmethod" in decos:
                 continue
             generator = "deco.new_from_generator" in decos
@@ -316,22 +351,7 @@ def site_table():
                     results.append((clsname, f.name, "yield", ast.unparse(val), final_class(classify(val, sc), clsname)))
                 elif isinstance(n, ast.Return) and n.value is not None:
                     results.append((clsname, f.name, "return", ast.unparse(n.value), final_class(classify(n.value, sc), clsname)))
-            # stores anywhere in the method, nested helper functions included (they run on the method's operands)
-            for n in ast.walk(f):
-                targets = []
-                if isinstance(n, ast.Assign):
-                    targets = n.targets
-                elif isinstance(n, ast.AugAssign):
-                    targets = [n.target]
-                for t in targets:
-                    if isinstance(t, (ast.Subscript, ast.Attribute)):
-                        stores.append((clsname, f.name, ast.unparse(n)[:120], store_target_class(t, sc)))
-                if isinstance(n, ast.Call) and isinstance(n.func, ast.Attribute) and n.func.attr in ("fill", "put", "itemset", "partition", "resize", "setfield", "byteswap") and not isinstance(n.func.value, ast.Constant):
-                    stores.append((clsname, f.name, ast.unparse(n)[:120], store_target_class(n.func, sc)))
-                if isinstance(n, ast.Call) and isinstance(n.func, ast.Attribute) and isinstance(n.func.value, ast.Name) and n.func.value.id == "np" and n.func.attr in ("place", "put", "putmask", "copyto", "put_along_axis"):
-                    tgt = n.args[0] if n.args else None
-                    c = classify(tgt, sc) if tgt is not None else "unknown"
-                    stores.append((clsname, f.name, ast.unparse(n)[:120], "local" if c in ("fresh", "local-frame", "list") else "operand" if c in ("opcol", "alias", "operand-frame", "param") else "unknown"))
+            stores.extend(stores_of(clsname, f, sc))
     return results, stores
 
 
